@@ -11,6 +11,6 @@ for c in "$@"; do
     VERIF_REPO=$SCR/repo VERIF_SEED=$seed VERIF_OUT=$SCR/out VERIF_JOBS=${VERIF_JOBS:-10} ./check $c ${TIER:+--tier $TIER} 2>&1 | grep "^$c: \(VIOL\|held\|viol\)\|^KNOWN" | cut -c1-600 | sed "s/^/[seed $seed] /"
   done
 done
-mkdir -p $SCR/home $SCR/repo/seeded_out; cp $DIR/demo.py $SCR/repo/seeded_out/demo.py
+mkdir -p $SCR/home $SCR/repo/seeded_out; cp $DIR/*.py $SCR/repo/seeded_out/
 (cd $SCR/repo && HOME=$SCR/home PYTHONPATH=$SCR/repo timeout 900 /venv/bin/python seeded_out/demo.py > $SCR/demo_with.log 2>&1; echo "demo with change: exit $?")
 rm -rf $SCR
